@@ -6,6 +6,8 @@
 use vstd::prelude::*;
 use vstd::arithmetic::mul::*;
 use std::rc::Rc;
+macro_rules! html_trace { ($($t:tt)*) => {} }
+macro_rules! html_trace_quiet { ($($t:tt)*) => {} }
 verus! {
 //@import SM
 
